@@ -24,20 +24,23 @@ theorem accessors_unsigned (u : Nat) :
   unfold mkUnsigned
   by_cases h : u < 2147483648
   · simp [h, typeOf, toInt, isT, tagOf, tINT, tNUMBER, tFLOAT, tSTRING, tSSTRING]
-  · simp [h, typeOf, numOf, isT, tagOf, tINT, tNUMBER, tFLOAT, tSTRING, tSSTRING]
+  · simp [h, typeOf, numOf, isT, tagOf, tINT, tNUMBER, tFLOAT, tSTRING, tSSTRING, Dy.norm_ofInt]
 
+/-- the number a double Var reports is (the normal form of) the pair it was built from: the same value -/
 theorem accessors_double (d : Dy) :
-    typeOf (mkDouble d) = tNUMBER ∧ isT (mkDouble d) tNUMBER = true ∧ numOf (mkDouble d) = some d ∧
-    toDouble (mkDouble d) = some (.inl d) := by
-  simp [mkDouble, typeOf, isT, tagOf, numOf, toDouble, tNUMBER]
+    typeOf (mkDouble d) = tNUMBER ∧ isT (mkDouble d) tNUMBER = true ∧
+    (∃ d', numOf (mkDouble d) = some d' ∧ d'.ValEq d ∧ d'.Normal) ∧ toDouble (mkDouble d) = some (.inl d) := by
+  refine ⟨rfl, by simp [mkDouble, isT, tagOf, typeOf, tNUMBER], ⟨_, rfl, Dy.norm_valEq d.m d.e, Dy.norm_normal _ _⟩, rfl⟩
 
 theorem accessors_float (d : Dy) :
-    typeOf (mkFloat d) = tFLOAT ∧ isT (mkFloat d) tNUMBER = true ∧ isT (mkFloat d) tFLOAT = true ∧ numOf (mkFloat d) = some d := by
-  simp [mkFloat, typeOf, isT, tagOf, numOf, tNUMBER, tFLOAT, tINT, tSTRING, tSSTRING]
+    typeOf (mkFloat d) = tFLOAT ∧ isT (mkFloat d) tNUMBER = true ∧ isT (mkFloat d) tFLOAT = true ∧
+    (∃ d', numOf (mkFloat d) = some d' ∧ d'.ValEq d ∧ d'.Normal) := by
+  refine ⟨rfl, by simp [mkFloat, isT, tagOf, typeOf, tNUMBER, tFLOAT, tINT], by simp [mkFloat, isT, tagOf, typeOf, tFLOAT],
+    ⟨_, rfl, Dy.norm_valEq d.m d.e, Dy.norm_normal _ _⟩⟩
 
 theorem accessors_long (x : Int) (_hexact : -9007199254740992 < x ∧ x < 9007199254740992) :
     typeOf (mkLong x) = tNUMBER ∧ numOf (mkLong x) = some (Dy.ofInt x) := by
-  simp [mkLong, typeOf, numOf]
+  simp [mkLong, typeOf, numOf, Dy.norm_ofInt]
 
 /-- `Var(long)` / `Var(unsigned long)` and `v = (long)x` on LP64 (repaired by 6c0507b): an INT with the same value
 inside the int range, a NUMBER with the same value outside it (exact for |x| < 2^53) — never a truncated int -/
@@ -47,7 +50,7 @@ theorem accessors_native_long (x : Int) (u : Nat) (_hexact : -9007199254740992 <
     (typeOf (mkNativeULong u) = tINT ↔ u < 2147483648) ∧ isT (mkNativeLong x) tNUMBER = true := by
   unfold mkNativeLong mkNativeULong
   by_cases h1 : -2147483648 ≤ x ∧ x < 2147483648 <;> by_cases h2 : u < 2147483648 <;>
-    simp [h1, h2, numOf, typeOf, isT, tagOf, tINT, tNUMBER, tFLOAT, tSTRING, tSSTRING, Dy.ofInt]
+    simp [h1, h2, numOf, typeOf, isT, tagOf, tINT, tNUMBER, tFLOAT, tSTRING, tSSTRING, Dy.ofInt, Dy.norm]
 
 theorem accessors_bool (b : Bool) :
     typeOf (mkBool b) = tBOOL ∧ isT (mkBool b) tBOOL = true ∧ isT (mkBool b) tNUMBER = false ∧ Var.toBool (mkBool b) = b := by
@@ -98,25 +101,38 @@ theorem eq_trans (f : Nat) (h : Heap) (u v w : V) (tu tv tw : Tree)
   rw [hb'', hiff''.mpr ((hiff.mp h1).trans (hiff'.mp h2))]
 
 
-/-- "numbers numerically": the model compares doubles as pairs `m / 2^e`; every double the driver builds is in normal
-form (`Dy.norm`, `Dy.ofInt`), normalisation keeps the numeric value, and on normal forms equality of pairs IS
-equality of values — so `eq_iff_content` speaks about numeric equality. -/
+/-- "numbers numerically": whatever pairs `m / 2^e` two numeric Vars store, `==` compares their normal forms, and two
+normal forms coincide exactly when the pairs denote the same number (`ValEq`: m1·2^e2 = m2·2^e1) — for every pair,
+no normality hypothesis on what is stored.  So `eq_iff_content` speaks about numeric equality. -/
 theorem numbers_compare_numerically :
-    (∀ m e, (Dy.norm m e).Normal ∧ (Dy.norm m e).ValEq ⟨m, e⟩) ∧ (∀ i, (Dy.ofInt i).Normal) ∧
+    (∀ a b : Dy, Dy.norm a.m a.e = Dy.norm b.m b.e ↔ a.ValEq b) ∧
+    (∀ m e, (Dy.norm m e).Normal ∧ (Dy.norm m e).ValEq ⟨m, e⟩) ∧ (∀ i, Dy.norm (Dy.ofInt i).m (Dy.ofInt i).e = Dy.ofInt i) ∧
     (∀ a b : Dy, a.Normal → b.Normal → (a = b ↔ a.ValEq b)) :=
-  ⟨fun m e => ⟨Dy.norm_normal m e, Dy.norm_valEq m e⟩, fun _ => Or.inl rfl,
+  ⟨Dy.norm_eq_iff, fun m e => ⟨Dy.norm_normal m e, Dy.norm_valEq m e⟩, Dy.norm_ofInt,
    fun a b ha hb => ⟨fun h => by subst h; rfl, Dy.normal_unique ha hb⟩⟩
+
+instance (a b : Dy) : Decidable (a.ValEq b) := by unfold Dy.ValEq; exact inferInstance
 
 /-- FLOAT against INT (and NUMBER), in both operand orders, is an exact comparison of the two values: a FLOAT Var holds
 the exact dyadic value of its C++ float, and an INT is never rounded to float — `Var(16777216.0f) == Var(16777217)`
 is false both ways. -/
 theorem eq_float_int_exact (f : Nat) (h : Heap) (d e : Dy) (i : Int) :
-    eqV (f + 1) h (.flt d) (.int i) = .ok (decide (Dy.ofInt i = d)) ∧
-    eqV (f + 1) h (.int i) (.flt d) = .ok (decide (d = Dy.ofInt i)) ∧
-    eqV (f + 1) h (.flt d) (.num e) = .ok (decide (e = d)) ∧
-    eqV (f + 1) h (.num e) (.flt d) = .ok (decide (d = e)) := by
-  simp only [eqV, numOf, beq_iff_eq, Option.some.injEq, Bool.decide_eq_true, decide_eq_decide]
-  refine ⟨?_, ?_, ?_, ?_⟩ <;> congr 1 <;> simp [BEq.beq]
+    eqV (f + 1) h (.flt d) (.int i) = .ok (decide ((Dy.ofInt i).ValEq d)) ∧
+    eqV (f + 1) h (.int i) (.flt d) = .ok (decide (d.ValEq (Dy.ofInt i))) ∧
+    eqV (f + 1) h (.flt d) (.num e) = .ok (decide (e.ValEq d)) ∧
+    eqV (f + 1) h (.num e) (.flt d) = .ok (decide (d.ValEq e)) := by
+  have key : ∀ a b : Dy, (some (Dy.norm a.m a.e) == some (Dy.norm b.m b.e)) = decide (a.ValEq b) := by
+    intro a b
+    by_cases hv : a.ValEq b
+    · have := (Dy.norm_eq_iff a b).mpr hv
+      simp [hv, this]
+    · have : ¬ Dy.norm a.m a.e = Dy.norm b.m b.e := fun e' => hv ((Dy.norm_eq_iff a b).mp e')
+      simp [hv, this]
+  refine ⟨?_, ?_, ?_, ?_⟩
+  · simpa [eqV, numOf, Dy.norm_ofInt] using key (Dy.ofInt i) d
+  · simpa [eqV, numOf, Dy.norm_ofInt] using key d (Dy.ofInt i)
+  · simpa [eqV, numOf] using key e d
+  · simpa [eqV, numOf] using key d e
 
 example : eqV 1 [] (.flt (Dy.norm 16777216 0)) (.int 16777217) = .ok false ∧
     eqV 1 [] (.int 16777217) (.flt (Dy.norm 16777216 0)) = .ok false ∧
@@ -222,6 +238,67 @@ theorem assign_then_equal (σ σ' : State) (t : Loc) (sl : Option Loc) (inv : In
   obtain ⟨b, hb, hiff⟩ := eq_iff_content f σ'.heap src w tr tr (hcont f tr hsrc) hw
   exact ⟨hread, by rw [hb, hiff.mpr rfl]⟩
 
+/-- **assign_lit_spec** — typed assignment `p = x` (int, unsigned, long, Long, double, float, bool, String, const char*):
+in every state satisfying the invariant, after the executed statement the Var at the target is readable, reports the
+literal's type and denotes the literal's content — whatever it held before (a shared container, a string, a scalar),
+including the in-place string branches where a STRING keeps its heap storage for a short text and an SSTRING is
+overwritten inline; the invariant still holds. -/
+theorem assign_lit_spec (σ σ' : State) (t : Loc) (sl : Option Loc) (p : Path) (l : Lit) (inv : Inv σ []) (hl : ValidLoc σ t)
+    (h : opBody true σ t sl (.setLit p l) = .ok σ') :
+    ∃ v', readLoc σ' t = .ok v' ∧ typeOf v' = typeOf l.toV ∧ content 1 σ'.heap v' = content 1 [] l.toV ∧ Inv σ' [] := by
+  have scalarCase : ∀ nv : V, handleOf nv = none → Var.storeV σ t nv = .ok σ' →
+      ∃ v', readLoc σ' t = .ok v' ∧ typeOf v' = typeOf nv ∧ content 1 σ'.heap v' = content 1 [] nv ∧ Inv σ' [] := by
+    intro nv hnv hs
+    obtain ⟨σ2, h2, inv2, _⟩ := Inv.storeV ((Inv.scalar hnv).mpr inv) hl (fun _ _ _ hc => by rw [hnv] at hc; cases hc)
+    rw [hs] at h2; cases h2
+    exact ⟨nv, inv.storeV_target hl hnv hs, rfl, content_scalar_indep hnv 1 [] _, inv2⟩
+  have inplace : ∀ nv : V, handleOf nv = none → (∀ old, readLoc σ t = .ok old → handleOf old = none) →
+      Var.writeLoc σ t nv = .ok σ' →
+      ∃ v', readLoc σ' t = .ok v' ∧ typeOf v' = typeOf nv ∧ content 1 σ'.heap v' = content 1 [] nv ∧ Inv σ' [] := by
+    intro nv hnv hold hw
+    obtain ⟨σ1, old, hr, hw1, inv1, _, hrd⟩ := ((Inv.scalar hnv).mpr inv).writeLoc hl (fun _ _ _ hc => by rw [hnv] at hc; cases hc)
+    rw [hw] at hw1; cases hw1
+    exact ⟨nv, hrd, rfl, content_scalar_indep hnv 1 [] _, (Inv.scalar (hold old hr)).mp inv1⟩
+  cases l with
+  | str s =>
+    simp only [opBody, Var.assignString] at h
+    obtain ⟨old, hr, _⟩ := readLoc_valid hl []
+    rw [hr] at h
+    have hms : ∀ v : V, (v = V.str s ∨ v = V.sstr s) → typeOf v = typeOf (mkString s) ∧ content 1 [] v = content 1 [] (mkString s) := by
+      intro v hv
+      unfold mkString
+      rcases hv with rfl | rfl <;> split <;> exact ⟨rfl, rfl⟩
+    have fin : ∀ nv : V, (nv = V.str s ∨ nv = V.sstr s) →
+        (∃ v', readLoc σ' t = .ok v' ∧ typeOf v' = typeOf nv ∧ content 1 σ'.heap v' = content 1 [] nv ∧ Inv σ' []) →
+        ∃ v', readLoc σ' t = .ok v' ∧ typeOf v' = typeOf (Lit.str s).toV ∧ content 1 σ'.heap v' = content 1 [] (Lit.str s).toV ∧ Inv σ' [] := by
+      intro nv hnv ⟨v', h1, h2, h3, h4⟩
+      obtain ⟨e1, e2⟩ := hms nv hnv
+      exact ⟨v', h1, h2.trans e1, h3.trans e2, h4⟩
+    cases old with
+    | str x =>
+      exact fin _ (Or.inl rfl) (inplace _ rfl (fun o ho => by rw [hr] at ho; cases ho; rfl) h)
+    | sstr x =>
+      simp only [] at h
+      split at h
+      · exact fin _ (Or.inr rfl) (inplace _ rfl (fun o ho => by rw [hr] at ho; cases ho; rfl) h)
+      · exact fin _ (Or.inl rfl) (inplace _ rfl (fun o ho => by rw [hr] at ho; cases ho; rfl) h)
+    | none => exact scalarCase _ (Lit.toV_scalar (.str s)) h
+    | null => exact scalarCase _ (Lit.toV_scalar (.str s)) h
+    | bool _ => exact scalarCase _ (Lit.toV_scalar (.str s)) h
+    | int _ => exact scalarCase _ (Lit.toV_scalar (.str s)) h
+    | num _ => exact scalarCase _ (Lit.toV_scalar (.str s)) h
+    | flt _ => exact scalarCase _ (Lit.toV_scalar (.str s)) h
+    | arr _ => exact scalarCase _ (Lit.toV_scalar (.str s)) h
+    | obj _ => exact scalarCase _ (Lit.toV_scalar (.str s)) h
+  | int i => exact scalarCase _ (Lit.toV_scalar (.int i)) h
+  | uns u => exact scalarCase _ (Lit.toV_scalar (.uns u)) h
+  | long i => exact scalarCase _ (Lit.toV_scalar (.long i)) h
+  | dbl d => exact scalarCase _ (Lit.toV_scalar (.dbl d)) h
+  | flt d => exact scalarCase _ (Lit.toV_scalar (.flt d)) h
+  | bool b => exact scalarCase _ (Lit.toV_scalar (.bool b)) h
+  | nlong i => exact scalarCase _ (Lit.toV_scalar (.nlong i)) h
+  | nulong u => exact scalarCase _ (Lit.toV_scalar (.nulong u)) h
+
 /-- the hypotheses of `assign_spec_state` are met by `v = v[0]` on `v = [[1,2],5]`: the assignment is executed and
 `v` then holds the handle of the former element -/
 example : ((opSetV (run true (initState 1)
@@ -255,7 +332,7 @@ result denotes the same tree as the original; and it denotes that tree in EVERY 
 blocks the clone allocated (ids ≥ the old heap length) — whatever happened to all older blocks, i.e. to everything
 the original can reach: modified, released, reallocated.  Missing for `clone_deep_full`: the footprint theorem that
 statements not mentioning the clone's root never modify the clone's blocks (they are referenced only from that
-root: rc = 1 by `history_safe_partial`). -/
+root: rc = 1 by `history_safe`). -/
 theorem clone_deep_partial (f : Nat) (h h' : Heap) (v c : V) (t : Tree)
     (hc : cloneV f h v = .ok (h', c)) (ht : content f h v = some t) :
     (∃ y, h' = h ++ y) ∧ content f h' c = some t ∧ ∀ h'', KeepsFrom h.length h' h'' → content f h'' c = some t := by
@@ -295,7 +372,8 @@ theorem history_safe : history_safe_full := by
   exact ⟨inv, hall⟩
 
 /-- in particular: no statement of any history is a use after free, a double release (count 0) or an
-out-of-range element access -/
+out-of-range element access — a statement is executed, or refused as `Excluded`, or it is `OutOfDomain` (not executed
+by the model because the library has no check for it; see `history_in_domain`) -/
 theorem history_never_touches_freed (n : Nat) (ops : List Op) :
     ∀ r ∈ results true (initState n) ops, r ≠ .error .uaf ∧ r ≠ .error .oob ∧ r ≠ .error .rc := by
   intro r hr
@@ -305,6 +383,51 @@ theorem history_never_touches_freed (n : Nat) (ops : List Op) :
   | error e =>
     simp only [Safe, Refusal] at hs
     refine ⟨?_, ?_, ?_⟩ <;> intro h <;> cases h <;> simp at hs
+
+/-- refusals of statements the property itself excludes (a container containing itself) or that are the two recorded
+known findings (growth of a shared block; a target path that moves what the source reference designates) -/
+def Excluded (e : Err) : Prop := e = .sharedGrowth ∨ e = .cyclic ∨ e = .srcMoved
+
+/-- statements outside the domain of the C++ API, for which the LIBRARY HAS NO CHECK (they are undefined behaviour
+there, e.g. a heap-buffer-overflow) and which the model therefore does not execute: a const index `v[i]` with
+`i ≥ length` (`nopath`); `v["k"]` on an array or a scalar, `Var(Type)` for NUMBER/BOOL/INT/FLOAT (uninitialised
+payload), a root variable that does not exist (`badarg`); nesting deeper than the traversal bound (`fuel`).  Negative
+indices and sizes are not expressible (indices are naturals). -/
+def OutOfDomain (e : Err) : Prop := e = .nopath ∨ e = .badarg ∨ e = .fuel
+
+/-- a history all of whose statements are inside the domain of the API -/
+def InDomain (n : Nat) (ops : List Op) : Prop :=
+  ∀ r ∈ results true (initState n) ops, ∀ e, r = .error e → ¬ OutOfDomain e
+
+/-- **history_in_domain** — for every history inside the domain of the API, every statement is executed, or it is one of
+the excluded statements (self-containment, the two known findings); nothing else can happen — in particular no
+access to released or out-of-range storage. -/
+theorem history_in_domain (n : Nat) (ops : List Op) (hd : InDomain n ops) :
+    ∀ r ∈ results true (initState n) ops, r = .ok () ∨ ∃ e, r = .error e ∧ Excluded e := by
+  intro r hr
+  have hs := (history_safe n ops).2 r hr
+  cases r with
+  | ok u => exact Or.inl rfl
+  | error e =>
+    right
+    refine ⟨e, rfl, ?_⟩
+    have hno := hd _ hr e rfl
+    simp only [Safe, Refusal] at hs
+    simp only [OutOfDomain, not_or] at hno
+    rcases hs with h | h | h | h | h | h
+    · exact Or.inl h
+    · exact Or.inr (Or.inl h)
+    · exact absurd h hno.1
+    · exact absurd h hno.2.1
+    · exact absurd h hno.2.2
+    · exact Or.inr (Or.inr h)
+
+/-- every root variable of every reached state denotes a finite tree (`content` is defined for a large enough
+recursion bound), so the equality, assignment and clone theorems are never vacuous on reached states -/
+theorem roots_denote_trees (n : Nat) (ops : List Op) (k : Nat) :
+    ∃ f tr, content f (run true (initState n) ops).heap (slotV (run true (initState n) ops) k) = some tr :=
+  let inv := (history_safe n ops).1
+  inv.content_defined _ (Held.live inv (slotV_held [] k))
 
 /-- **no leak**: in every state reached by any history, if no root variable holds an array or object any more
 (all were dropped or overwritten by scalars), then no block is live — everything that was allocated has been
